@@ -2,6 +2,7 @@
 from __future__ import annotations
 from typing import Optional, Sequence, Tuple, Union
 
+import numpy
 import numpy.typing
 
 import numpoly
@@ -9,6 +10,9 @@ import numpoly
 from . import clean
 from ..baseclass import ndpoly
 
+RAW_WRITER_DTYPES = tuple(
+    numpy.dtype(dtype) for dtype in ("bool", "uint32", "int64", "float64", "complex128")
+)
 
 def polynomial_from_attributes(
     exponents: numpy.typing.ArrayLike,
@@ -92,9 +96,13 @@ def polynomial_from_attributes(
     )
 
     if coefficients:
-        numpoly.cfrom_attributes(coefficients, poly.values.ravel())
-
-    # for key, values in zip(poly.keys, coefficients):
-    #    poly.values[key] = values
+        # The raw writer copies source-typed words and only knows a few types.
+        coefficients = [coeff.astype(poly.dtype, copy=False) for coeff in coefficients]
+        if poly.dtype in RAW_WRITER_DTYPES:
+            numpoly.cfrom_attributes(coefficients, poly.values.ravel())
+        else:
+            values = poly.values
+            for key, coeff in zip(poly.keys, coefficients):
+                values[key] = coeff
 
     return poly
